@@ -1,0 +1,30 @@
+//go:build verif
+
+package dagsync
+
+import (
+	"sync/atomic"
+
+	"github.com/ipfs/go-cid"
+	"github.com/libp2p/go-libp2p/core/peer"
+)
+
+// verifTap is a test-only observation / delay point used by the verification
+// harness. It is only compiled with the "verif" build tag.
+var verifTap atomic.Pointer[func(point string, p peer.ID, c cid.Cid)]
+
+// SetVerifTap installs (or, with nil, removes) the function called at the
+// named points of the subscriber.
+func SetVerifTap(f func(point string, p peer.ID, c cid.Cid)) {
+	if f == nil {
+		verifTap.Store(nil)
+		return
+	}
+	verifTap.Store(&f)
+}
+
+func verifPoint(point string, p peer.ID, c cid.Cid) {
+	if f := verifTap.Load(); f != nil {
+		(*f)(point, p, c)
+	}
+}
